@@ -83,7 +83,7 @@ func checkC16(r *Result) []Violation {
 }
 
 func init() {
-	register(&propDef{ID: "C16", Gen: genC16, Check: checkC16, Foreign: foreignAtt,
+	register(&propDef{ID: "C16", Gen: genC16, Check: withCrashRule("C16", checkC16),
 		Interesting: func(r *Result) bool {
 			for _, e := range r.Hist {
 				if e.K == KSrvWrite && e.Err == "" {
